@@ -17,6 +17,8 @@ N_META_STRUCT = 70
 N_META_ENUM = 18
 N_ELEM = 60
 
+GEN_STRUCTS = []  # (name, has a seam Default impl) of generated FromMeta structs so far
+GEN_ENUMS = []    # names of generated FromMeta enums so far
 out_rs = []      # corpus
 out_schema = []  # schema
 meta_names = []
@@ -93,8 +95,8 @@ def gen_fields(site_base, allow_flatten=True, need_default=False, from_ident=Fal
         f.opts = []       # darling option strings
         f.schema = []     # builder calls on schema::f(..)
         f.rename = None
-        kind = R.choice(["pm", "pm", "pm", "opt", "box", "multi", "multi", "u8", "bool", "flag", "recv", "optrecv", "map", "flatten"])
-        if from_ident and kind in ("u8", "bool", "flag", "recv", "optrecv", "map"):
+        kind = R.choice(["pm", "pm", "pm", "opt", "box", "multi", "multi", "u8", "bool", "flag", "recv", "recv", "optrecv", "map", "mapr", "flatten"])
+        if from_ident and kind in ("u8", "bool", "flag", "recv", "optrecv", "map", "mapr"):
             kind = "pm"
         if kind == "flatten" and (have_flatten or not allow_flatten or need_default or from_ident):
             kind = "pm"
@@ -170,14 +172,27 @@ def gen_fields(site_base, allow_flatten=True, need_default=False, from_ident=Fal
                 f.schema.append("dflt()")
         elif kind == "flag":
             f.ty, f.sty, f.defaultable = "darling::util::Flag", "Ty::Flag", True
+        elif kind == "mapr":
+            # a map whose values are derived receivers
+            pool = ["S1", "S9", "E1"] + [n for n, _ in GEN_STRUCTS[-6:]] + GEN_ENUMS[-3:]
+            name = R.choice(pool)
+            if R.random() < 0.5:
+                f.ty, f.sty = "HashMap<String, %s, B>" % name, 'hmap(KeyKind::Str, r("%s"))' % name
+            else:
+                f.ty, f.sty = "BTreeMap<String, %s>" % name, 'bmap(KeyKind::Str, r("%s"))' % name
+            f.defaultable = True
+            if R.random() < 0.7:
+                f.opts.append("default")
+                f.schema.append("dflt()")
         elif kind == "recv":
-            name, dflt = R.choice([("S1", False), ("S5", True), ("S9", False), ("E1", False), ("S2", False)])
+            pool = [("S1", False), ("S5", True), ("S9", False), ("E1", False), ("S2", False)] + GEN_STRUCTS[-8:] + [(n, False) for n in GEN_ENUMS[-3:]]
+            name, dflt = R.choice(pool)
             f.ty, f.sty, f.defaultable = name, 'r("%s")' % name, dflt
             if dflt and R.random() < 0.4:
                 f.opts.append("default")
                 f.schema.append("dflt()")
         elif kind == "optrecv":
-            name = R.choice(["S1", "S9", "E1", "S3"])
+            name = R.choice(["S1", "S9", "E1", "S3"] + [n for n, _ in GEN_STRUCTS[-6:]] + GEN_ENUMS[-3:])
             f.ty, f.sty, f.defaultable = "Option<%s>" % name, 'opt(r("%s"))' % name, True
         elif kind == "map":
             if R.random() < 0.5:
@@ -279,6 +294,7 @@ def meta_struct(i):
         name, ", ".join(field_schema(f, rule) for f in fields))
     out_schema.append("    add(%s);" % sc)
     meta_names.append(name)
+    GEN_STRUCTS.append((name, cdefault))
 
 
 def plain_default_expr(f):
@@ -324,13 +340,14 @@ def meta_enum(i):
             sc_kind = "VariantKind::Unit"
             obs.append('%s::%s => Val::Variant("%s".into(), Box::new(Val::Unit)),' % (name, v, vname))
         elif kind == "newtype":
-            t = R.choice(["pm", "opt", "recv"])
+            t = R.choice(["pm", "opt", "recv", "recv"])
             if t == "pm":
                 ty, sty = "PM<%d>" % site, "pm(%d)" % site
             elif t == "opt":
                 ty, sty = "Option<PM<%d>>" % site, "opt(pm(%d))" % site
             else:
-                ty, sty = "S1", 'r("S1")'
+                rn = R.choice(["S1", "S9"] + [n for n, _ in GEN_STRUCTS[-10:]])
+                ty, sty = rn, 'r("%s")' % rn
             rs_v += "%s    %s(%s),\n" % (attr, v, ty)
             sc_kind = "VariantKind::Newtype(%s)" % sty
             obs.append('%s::%s(x) => Val::Variant("%s".into(), Box::new(x.observe())),' % (name, v, vname))
@@ -355,6 +372,7 @@ def meta_enum(i):
     out_rs.append(rs)
     out_schema.append('    add(recv("%s", Enum(vec![%s])));' % (name, ", ".join(sc_v)))
     meta_names.append(name)
+    GEN_ENUMS.append(name)
 
 
 SHAPE_WORDS = ["named", "tuple", "newtype", "unit"]
@@ -371,11 +389,17 @@ def elem(i):
     from_ident = kind != "Attributes" and R.random() < 0.25
     fields = gen_fields(base, from_ident=from_ident, max_fields=4)
     attr_names = R.choice([["a"], ["a"], ["a", "b"]])
+    rule = R.choice(FIELD_RULES)
+    cdefault = kind == "Attributes" and not from_ident and all(f.defaultable for f in fields) and not any(f.kind == "flatten" for f in fields) and R.random() < 0.5
     allow_unknown = R.random() < 0.2
     post = R.choice([None, None, None, "and_then", "map"])
     fwd = R.choice(["none", "none", "bare", "list", "empty"])
     attrs_with = fwd != "none" and R.random() < 0.5
     copts = ["attributes(%s)" % ", ".join(attr_names)]
+    if rule:
+        copts.append('rename_all = "%s"' % rule)
+    if cdefault:
+        copts.append("default")
     if from_ident:
         copts.append("from_ident")
     if allow_unknown:
@@ -505,15 +529,19 @@ def elem(i):
             rs += "impl From<%s> for %s {\n    fn from(_ident: %s) -> Self {\n        from_ident_seam(%d);\n        %s { %s }\n    }\n}\n" % (arg, name, arg, base + 93, name, ", ".join(inits))
         else:
             rs += "impl From<%s> for %s {\n    fn from(ident: %s) -> Self {\n        from_ident_seam(%d);\n        %s { %s }\n    }\n}\n" % (arg, name, arg, base + 93, name, ", ".join(inits))
+    if cdefault:
+        rs += "impl Default for %s {\n    fn default() -> Self {\n        container_default_seam(%d);\n        %s { %s }\n    }\n}\n" % (
+            name, base + 92, name, ", ".join(["attrs: Default::default()"] * (1 if fwd != "none" and not attrs_with else 0) + ["attrs: AttrProbe(0)"] * (1 if fwd != "none" and attrs_with else 0) + ["%s: Default::default()" % f.rust for f in fields]))
     out_rs.append(rs)
     fwd_sc = {"none": "Forward::None", "bare": "Forward::All", "list": "Forward::Only(vec![%s])" % ", ".join('"%s"' % n for n in fwd_names), "empty": "Forward::Only(vec![])"}[fwd]
     attrs_sc = "None" if fwd == "none" else ("Some(AttrsField::With(%d))" % (base + 81) if attrs_with else "Some(AttrsField::Plain)")
     sc_s = ('ElemDesc { forward: %s, attrs_field: %s, allow_unknown: %s, from_ident: %s, supports: %s, has_ident: %s, generics: %s, data: %s, variant_fields: %s, '
-            'container_post: %s, ..elem("%s", %s, vec![%s], vec![%s]) }') % (
+            'container_post: %s, container_default: %s, ..elem("%s", %s, vec![%s], vec![%s]) }') % (
         fwd_sc, attrs_sc, "true" if allow_unknown else "false", "Some(%d)" % (base + 93) if from_ident else "None", sc["supports"], sc["has_ident"],
         sc["generics"], sc["data"], sc["variant_fields"],
         "Some((Post::AndThen, %d))" % (base + 90) if post == "and_then" else ("Some((Post::Map, %d))" % (base + 90) if post == "map" else "None"),
-        name, kind, ", ".join('"%s"' % a for a in attr_names), ", ".join(field_schema(f, None) for f in fields))
+        "Some(ContainerDefault::Trait(%d))" % (base + 92) if cdefault else "None",
+        name, kind, ", ".join('"%s"' % a for a in attr_names), ", ".join(field_schema(f, rule) for f in fields))
     out_schema.append("    add(%s);" % sc_s)
     elem_names.append((name, kind))
 
